@@ -165,12 +165,24 @@ func runProp(prop string) int {
 	sort.Strings(keys)
 	todo := map[*ssa.Function]*Contract{}
 	var order []*ssa.Function
+	var ifaceAssumed []string
+	needSmoke := false
 	for _, k := range keys {
 		con := P.CS.Funcs[k]
+		if con.Kind == "iface" {
+			// contract of an interface method: assumed for every implementation
+			var es []string
+			for _, e := range con.Ensures {
+				es = append(es, e.Src)
+			}
+			ifaceAssumed = append(ifaceAssumed, fmt.Sprintf("every implementation of %s satisfies: ensures %s", con.Name, strings.Join(es, " && ")))
+			continue
+		}
 		fn := P.funcsByKey[k]
 		if fn == nil || len(fn.Blocks) == 0 {
 			rr.undecided = append(rr.undecided, fmt.Sprintf("%s (function not found in the current tree)", k))
 			fmt.Printf("UNDECIDED %s: contracted function not found\n", k)
+			needSmoke = true
 			continue
 		}
 		todo[fn] = con
@@ -238,10 +250,17 @@ func runProp(prop string) int {
 			c.run()
 		}()
 		if c.err != nil {
-			fmt.Fprintf(os.Stderr, "ERROR %s: %v\n", fn, c.err)
+			// The contracts bind on the unchanged tree; a binding failure here means the code
+			// under contract changed shape (renamed local, different loop count, ...): that is
+			// undecided, not a violation. The replay templates still run (step 6b).
+			fmt.Fprintf(os.Stderr, "UNDECIDED %s: %v\n", fn, c.err)
 			rr.undecided = append(rr.undecided, fmt.Sprintf("%s: %v", fn, c.err))
-			fmt.Printf("BROKEN-CHECK %s: %v\n", fn, c.err)
-			return 2
+			fmt.Printf("UNDECIDED %s: %v\n", fn, c.err)
+			needSmoke = true
+			if os.Getenv("VERIF_STRICT") != "" {
+				return 2
+			}
+			continue
 		}
 		n := 0
 		for _, b := range fn.Blocks {
@@ -335,6 +354,7 @@ func runProp(prop string) int {
 
 	// 6. bounded stand-ins (never counted as proved)
 	var bounded []map[string]any
+	var smoke []map[string]any
 	boundedViol := 0
 	for _, b := range cfg.Bounded {
 		if b.Tier == "thorough" && *flagTier != "thorough" {
@@ -355,6 +375,31 @@ func runProp(prop string) int {
 				boundedViol--
 			} else {
 				fmt.Printf("VIOLATION property=%s replay=%s\n", prop, rp)
+			}
+		}
+	}
+
+	// 6b. undecided functions: the replay templates run with their stored boundary inputs
+	smokeViol := 0
+	if needSmoke || *flagTier == "thorough" {
+		done := map[string]bool{}
+		for _, rs := range cfg.Replays {
+			if done[rs.Template] {
+				continue
+			}
+			done[rs.Template] = true
+			src, err := renderTemplate(filepath.Join(*flagVerif, "replay", prop, rs.Template), map[string]string{}, &Obl{Name: "smoke"})
+			if err != nil {
+				continue
+			}
+			tmp := filepath.Join(scratch(), "smoke_"+sanitize(rs.Template)+"_test.go")
+			os.WriteFile(tmp, []byte(src), 0o644)
+			status, out, _ := runInjectedTest(P, tmp, rs.PkgDir, rs.Run, rs.Ext, 300)
+			smoke = append(smoke, map[string]any{"template": rs.Template, "result": status})
+			if status == "fail" {
+				smokeViol++
+				rp := writeReplayFile(prop, "smoke."+rs.Template, "replay template "+rs.Template+" run with its stored boundary inputs on the current tree failed\n\n"+out)
+				fmt.Printf("VIOLATION property=%s replay=%s obligation=replay-smoke[%s] confirmed-on-real-code\n", prop, rp, rs.Template)
 			}
 		}
 	}
@@ -419,7 +464,7 @@ func runProp(prop string) int {
 			}
 		}
 	}
-	violations += boundedViol
+	violations += boundedViol + smokeViol
 
 	// evidence
 	total := len(rr.obls)
@@ -443,6 +488,7 @@ func runProp(prop string) int {
 			assumed = append(assumed, "axiom "+ax.Name+": "+ax.Src)
 		}
 	}
+	assumed = append(assumed, ifaceAssumed...)
 	assumed = append(assumed, cfg.Assume...)
 	trusted := append([]string{"go/packages+go/types+go/ssa (x/tools v0.50.0): SSA taken as the meaning of the source", "govc VC generator and memory model (/verif/govc)", "SMT solvers z3 4.8.12, z3 5.1.0, cvc5 1.0.3", "sequential execution of one invocation (goroutines, channels, locks not modelled)"}, cfg.Trusted...)
 	ev := map[string]any{
@@ -467,6 +513,7 @@ func runProp(prop string) int {
 			"undecided":                rr.undecided,
 			"known_findings_hit":       knownHit,
 			"bounded_standins":         bounded,
+			"replay_smoke_runs":        smoke,
 			"frame_scans":              frameNotes,
 			"callrule_sites":           ruleHits,
 			"contract_files":           P.contractFiles,
